@@ -214,3 +214,17 @@ def helper_main(manager, cmd_q, ack_q, initial):
             ack_q.put(['ok', None])
             os._exit(0)
         ack_q.put(ex.do(cmd))
+
+
+class CtorHolder:
+    """a hosted class whose constructor hosts something itself (managed_list inside the server, under create's mutex)"""
+    def __init__(self):
+        from mpservice.multiprocessing.server_process import managed_list
+        self.items = managed_list([1, 2])
+
+    def get(self):
+        return self.items
+
+
+ServerProcess.register('CtorHolder', CtorHolder)
+
